@@ -19,7 +19,7 @@ def variants_of(case):
 
 
 def uses_nonstring_remove(variant):
-    return any(st['k'] == 'remove' and st.get('rep', 'str') != 'str' for st in variant['steps'])
+    return any(st['k'] == 'remove' and (st['srcrep'], st['dstrep']) != ('str', 'str') for st in variant['steps'])
 
 
 def evaluate(cases):
